@@ -153,6 +153,10 @@ def parse_harness_output(text, allow=None):
             res["undecided_checks"].append("%s: %s %s" % (name, status, desc))
     res["covers"] = [covers_sat, covers_total]
     done = "VERIFICATION:- " in text
+    if "CBMC timed out" in text or "CBMC failed" in text and not checks:
+        res["verdict"] = "undecided"
+        res["reason"] = "CBMC timed out / failed without a result (tool limit)"
+        return res
     if not done:
         res["verdict"] = "undecided"
         tail = text.strip().splitlines()[-3:] if text.strip() else []
